@@ -394,8 +394,8 @@ def gen_template(rng, name, family=None):
        tagjob-refchg : a referenced tag changes (query edit, mark add/del) while the referrer's job is parked
        convjob-2imp  : two imports complete while a converter job is parked at its start
        view-import   : on-demand conversion through a view opened before / during an import"""
-    family = family or rng.choice(["tagjob-import", "tagjob-refchg", "convjob-2imp", "view-import", "convjob-detach", "view-multi", "view-multi",
-                                   "tagjob-convdone", "import-corrupt", "tag-evalerr", "conv-baddir"])
+    family = family or rng.choice(["conv-restart", "tagjob-attach", "tagjob-import", "tagjob-refchg", "tagjob-refchg", "convjob-2imp", "view-import", "convjob-detach", "view-multi",
+                                   "view-multi", "tagjob-convdone", "import-corrupt", "tag-evalerr", "conv-baddir", "detach-datatag"])
     scn = _tmpl_base(rng, name, rng.choice([3, 4]))
     kinds, x = _file_kinds(rng, scn)
     acts = scn["actions"]
@@ -427,7 +427,10 @@ def gen_template(rng, name, family=None):
             acts.append(["settle", rng.randrange(1 << 20)])
             ref = "tag/a"
         r = ("ref", ref)
-        d = rng.choice([r, ("and", r, _plain_def(rng, scn, ("port", "host"))), ("not", r), ("sub", ref, "sport")])
+        sq = ("sub", ref, rng.choice(["sport", "cport"]))
+        d = rng.choice([r, ("and", r, _plain_def(rng, scn, ("port", "host"))), ("not", r), sq,
+                        # the same tag both in a sub-query and in the main query
+                        ("and", sq, ("not", r)), ("and", sq, r)])
         acts.append(["addtag", "tag/c", add_def(d)])
         if rng.random() < 0.3:
             acts.append(["addtag", "tag/d", add_def(("ref", "tag/c"))])
@@ -535,6 +538,44 @@ def gen_template(rng, name, family=None):
             rng.shuffle(order)
             for sid in order + order[:rng.choice([0, 1, 2])]:
                 acts.append(["viewdata", 0, sid, "cvb"])
+    elif family == "conv-restart":
+        # a converter is restarted (new executable generation) while the conversions of its job are running (slow converter
+        # cvs): output of the old generation must not survive
+        scn["converters"] = ["cva", "cvs"]
+        acts.append(["addtag", "tag/a", add_def(rng.choice([("not", ("cport", [9])), _plain_def(rng, scn, ("port", "host", "id"))]))])
+        acts.append(["settle", rng.randrange(1 << 20)])
+        acts.append(["setconv", "tag/a", rng.choice([["cvs"], ["cvs"], ["cva", "cvs"]])])
+        if rng.random() < 0.3:
+            acts += [["stepkind", "convert"], ["stepkind", "convert"], ["resetconv", "cvs"]]
+        acts.append(["convreset", "cvs"])
+        acts.append(["stepkind", "convert"])
+    elif family == "tagjob-attach":
+        # a converter is attached to / taken from a tag while the tag's evaluation is parked (before or after it ran)
+        acts.append(["addtag", "tag/a", add_def(rng.choice([("not", ("cport", [9])), _plain_def(rng, scn, ("port", "host", "id"))]))])
+        for _ in range(rng.choice([0, 1, 1])):
+            acts.append(["stepkind", "tag"])
+        acts.append(["setconv", "tag/a", ["cva"]])
+        if rng.random() < 0.3:
+            acts.append(["setconv", "tag/a", []])
+            acts.append(["setconv", "tag/a", ["cva"]])
+        acts += [["stepkind", "tag"], ["stepkind", "tag"]]
+    elif family == "detach-datatag":
+        # a converter is attached to exactly one tag, another tag filters on that converter's output; the attachment goes
+        # away (delete / set-converter) while no tagging job runs: the data tag is re-opened and has to be evaluated again
+        acts.append(["addtag", "tag/a", add_def(rng.choice([("not", ("cport", [9])), _plain_def(rng, scn, ("port", "host", "id"))]))])
+        acts.append(["settle", rng.randrange(1 << 20)])
+        acts.append(["setconv", "tag/a", ["cva"]])
+        acts.append(["settle", rng.randrange(1 << 20)])
+        word = rng.choice([p["data"] for p in scn["files"][0]])
+        d = ("cdatac", "cva", word.encode().hex())
+        if rng.random() < 0.3:
+            d = ("or", d, _plain_def(rng, scn, ("port", "id")))
+        acts.append(["addtag", "tag/b", add_def(d)])
+        if rng.random() < 0.3:
+            acts.append(["addtag", "tag/c", add_def(("ref", "tag/b"))])
+        if rng.random() < 0.8:
+            acts.append(["settle", rng.randrange(1 << 20)])
+        acts.append(rng.choice([["deltag", "tag/a"], ["deltag", "tag/a"], ["setconv", "tag/a", []]]))
     elif family == "tagjob-convdone":
         # a converter job completes while the tagging job of a tag that filters on that converter's output is parked
         # (before or after its evaluation); the tag must not be published decided with pre-conversion matches
@@ -784,9 +825,10 @@ def conv_bad(cname, s):
     return cname == "cvb" and ("flagX" in s["c"] or "flagX" in s["s"])
 
 
-def conv_expected(cname, s):
+def conv_expected(cname, s, gen=0):
     # hex: a data filter without converter selector also searches converter output; hex never matches the data words
-    return "%s#%s#%s\x00" % (cname, s["c"].encode().hex(), s["s"].encode().hex())
+    # gen: executable generation (the harness bumps it when it restarts a converter)
+    return "%s#%s#%s\x00" % (cname if not gen else "%s@%d" % (cname, gen), s["c"].encode().hex(), s["s"].encode().hex())
 
 
 def check_scenario(scn, lines):
@@ -799,7 +841,7 @@ def check_scenario(scn, lines):
     prev_queue = []
     name = scn["name"]
     per_line = {}
-    epoch, view_epoch, view_state, prev_st = 0, {}, {}, None
+    epoch, view_epoch, view_state, prev_st, conv_gen = 0, {}, {}, None, {}
     for li, ln in enumerate(lines):
         for f in F:
             if f.li < 0:
@@ -821,6 +863,8 @@ def check_scenario(scn, lines):
         # definition / mark changed since (tagging job completions do not change the truth)
         if res == "import.done" or (act[0] in ("addtag", "addmark", "deltag", "query", "markadd", "markdel") and res == "ok"):
             epoch += 1
+        if act[0] in ("resetconv", "convreset") and res != "noop":
+            conv_gen[act[1]] = conv_gen.get(act[1], 0) + 1
         if act[0] == "viewopen" and res == "ok":
             view_epoch[act[1]] = epoch
             view_state[act[1]] = st
@@ -976,12 +1020,12 @@ def check_scenario(scn, lines):
                 if sid not in streams:
                     F.append(Finding("C16", "cache-unknown-stream", name, i, {"conv": c, "stream": sid}))
                     continue
-                if out != conv_expected(c, streams[sid]):
+                if out != conv_expected(c, streams[sid], conv_gen.get(c, 0)):
                     if inflight or sid in st["toconv"].get(c, []):
                         stats["stale_allowed"] += 1
                         continue
                     F.append(Finding("C16", "stale-output", name, i,
-                                     {"conv": c, "stream": sid, "cached": out, "want": conv_expected(c, streams[sid]),
+                                     {"conv": c, "stream": sid, "cached": out, "want": conv_expected(c, streams[sid], conv_gen.get(c, 0)),
                                       "attached_to": attached.get(c, [])}))
         for c in st["toconv"]:
             if c not in attached and not inflight and st["toconv"][c]:
@@ -1027,6 +1071,8 @@ def check_scenario(scn, lines):
                                   and not conv_bad(c, streams[sid]))
                     if miss:
                         F.append(Finding("C16", "missing-output-at-quiescence", name, i, {"conv": c, "streams": miss, "tags": tns}))
+                        # the same state seen from C09: the service is idle although converter work of an attached tag is undone
+                        F.append(Finding("C09", "converter-work-undone-at-rest", name, i, {"conv": c, "streams": miss, "tags": tns}))
     for f in F:
         if f.li < 0:
             f.li = len(lines) - 1 if not lines or lines[-1]["i"] != -2 else len(lines) - 2
@@ -1194,6 +1240,8 @@ def model_cases(scn, lines, kfs, per_line):
         exp = proj_from_dump(st, streams, reg, scn)
         a = "nop"
         k = act[0]
+        if k in ("resetconv", "convreset") and res != "noop":
+            break       # ResetConverter is not modelled: the direct oracles go on, the replay ends here
 
         def spec_for(tn, defstr, ast):
             t = st["tags"].get(tn)
@@ -1512,7 +1560,7 @@ def analyse(shared, exe):
     def attribute(f):
         """id of the known finding that explains f, or None"""
         d = div.get(f.scn)
-        if f.kind in ("stale-decided", "stale-output", "queued-after-detach", "missing-output-at-quiescence", "eligible-merge-not-started"):
+        if f.kind in ("stale-decided", "stale-output", "queued-after-detach", "missing-output-at-quiescence", "converter-work-undone-at-rest", "eligible-merge-not-started"):
             if d is not None and d <= f.li:
                 return None         # the model does not explain this state
             resp = [kid for kid in sorted(K) if KF_PROP[kid] == f.prop and without[kid].get(f.scn) is not None and without[kid][f.scn] <= f.li]
